@@ -18,7 +18,8 @@ RULE = (
     'production LightSet + LifxLanApi over the simulated LAN with a virtual '
     'clock: discover(arbitrary snapshot over 4 names x 3 groups x 3 '
     'locations, duplicate labels allowed), failing discover, advance(dt), '
-    'refresh (discover + expiry with a generated light_gc_time, 0 included), up to 12 '
+    'refresh (discover + expiry with a generated light_gc_time, 0 included; '
+    'also with its discovery half left unanswered), up to 12 '
     'steps; after every step the directory is compared with a dict model '
     '(name -> group, location, last seen): names sorted / duplicate-free / '
     'exactly the known lights, each light in exactly its last reported group '
@@ -116,11 +117,26 @@ class Directory:
         self.clock.now += dt
         self.log.append(('advance', dt))
 
-    def refresh(self, snapshot):
+    def refresh(self, snapshot, fail=None):
         self.set_population(snapshot)
-        self.light_set.refresh()
-        self.log.append(('refresh', [list(x) for x in snapshot]))
-        self._model_seen(snapshot)
+        if fail == 'lan':
+            self.lan.discover_fails = 1
+        elif fail is not None and snapshot:
+            victim = snapshot[fail[0] % len(snapshot)][0]
+            self.lan.op_faults[(victim, fail[1])] = 1
+        try:
+            self.light_set.refresh()
+        finally:
+            self.lan.op_faults.clear()
+            self.lan.discover_fails = 0
+        failed = fail == 'lan' or (fail is not None and bool(snapshot))
+        if failed:
+            # nothing was seen; the expiry half still takes place
+            self.notes.add('failed-refresh')
+            self.log.append(('refresh', [list(x) for x in snapshot], fail))
+        else:
+            self.log.append(('refresh', [list(x) for x in snapshot]))
+            self._model_seen(snapshot)
         limit = float(self.gc_time)     # seconds; need not be whole
         for name in sorted(self.model):
             group, loc, seen = self.model[name]
@@ -316,6 +332,20 @@ def machine_class(acc, gc_choices=(0, 1, 2.5, '30.5', 30, 100, 300)):
                            'light_gc_time = {!r}'.format(
                                ex, self.dir.gc_time))
 
+        @rule(snapshot=snapshots(), victim=st.integers(0, 5),
+              op=st.sampled_from(['lan', 'get_label', 'get_group',
+                                  'get_location']))
+        def refresh_fails(self, snapshot, victim, op):
+            # the discovery half of a refresh gets no answer: the lights
+            # that have not been seen for too long are dropped all the same
+            self._ensure()
+            fail = 'lan' if op == 'lan' else (victim, op)
+            try:
+                self.dir.refresh(snapshot, fail)
+            except Exception as ex:     # noqa
+                self._fail('refresh-raised', 'refresh() with an unanswered '
+                           'discovery raised {!r}'.format(ex))
+
         def _fail(self, sig, what):
             if self.failed is None:
                 self.failed = (sig, what)
@@ -367,7 +397,10 @@ def replay_history(acc, gc, steps):
             elif kind == 'advance':
                 directory.advance(step[1])
             else:
-                directory.refresh([tuple(x) for x in step[1]])
+                fail = step[2] if len(step) > 2 else None
+                if isinstance(fail, list):
+                    fail = tuple(fail)
+                directory.refresh([tuple(x) for x in step[1]], fail)
         except Exception as ex:
             acc.fail('raised', '{} raised {!r}'.format(kind, ex),
                      {'kind': 'history', 'gc': gc, 'steps': steps})
